@@ -173,6 +173,14 @@ func serveBytesHook(b *Batch, names []string) {
 		sbStats["skipped_signature_conflict"]++
 		return
 	}
+	for _, d := range dids {
+		if len(d) > 600 {
+			// base58 is quadratic: the DID string of a 2 KB "key" costs the Coq side ten seconds; such tokens stay with
+			// the decoded-token correspondence of the batch
+			sbStats["skipped_huge_did"]++
+			return
+		}
+	}
 	// the root block of the message is in the body too: its digest
 	for _, blk := range sbBlocksOf(ch.body) {
 		if _, ok := digests[string(blk)]; !ok {
